@@ -107,13 +107,25 @@ def run(ctx):
             ok14 = False
     cond['c14'] = ok14
     f_so = repo.func('matcher._split_on')
-    okb = [f.short for f, n in named_call_sites(repo, '_find_closing_brace')] == ['_split_on']
+    # decided on the paths of _split_on (two characters deep): every call of _find_closing_brace(T, K) happens after the decision
+    # `T[K] in _brace_pairs` was taken as true on that path - with that very text and position
+    from .common import effective_funcs as _eff_b
+    okb = all(g.short == '_split_on' for f, n in named_call_sites(repo, '_find_closing_brace') for g in _eff_b(repo, f))
     if okb:
-        okb = False
-        for n in f_so.body_nodes():
-            if isinstance(n, ast.If) and norm(n.test) == 'c in _brace_pairs' and any(isinstance(x, ast.Call) and norm(x.func) == '_find_closing_brace' and norm(x.args[0]) == 'text' and norm(x.args[1]) == 'i' for s in n.body for x in ast.walk(s)):
-                cdef = [m for m in f_so.body_nodes() if isinstance(m, ast.Assign) and norm(m.targets[0]) == 'c']
-                okb = len(cdef) == 1 and norm(cdef[0].value).startswith('text[i] if i < len(text)')
+        ncall_b = 0
+        from .common import paths_for_input as _pfi
+        from ..peval import module_resolver as _mres_b
+        # (paths that decide a constant membership such as `'' in _brace_pairs` against the table itself are infeasible and dropped)
+        for p in _pfi(paths_of(repo, f_so, while_unroll=2), {}, None, _mres_b(repo, f_so.module)):
+            for i_, e in enumerate(p.events):
+                if e.kind == 'call' and e.ftext == '_find_closing_brace' and len(e.args) >= 2:
+                    ncall_b += 1
+                    want = '%s[%s] in _brace_pairs' % (norm(e.args[0]), norm(e.args[1]))
+                    before = {d.extra.text: None for d in p.events[:i_] if d.kind == 'decide' and d.extra is not None}
+                    taken = {a.text: v for a, v in p.decisions}
+                    if not (want in before and taken.get(want) is True):
+                        okb = False
+        okb = okb and ncall_b > 0
     cond['brace'] = okb
     mock = repo.cls('core.wl.object.MockObject')
     mi = mock.methods.get('__init__')
